@@ -64,7 +64,7 @@ func run(r *ev.Run) {
 		"hang: an input that needs more than 60 s of wall clock is re-run alone and is a violation if it uses more than 60 s of process CPU time or does not return within 10 min (the only use of clocks; no other oracle depends on time); tokens are at most 8 KB (the lexer is quadratic in the token length) and fuzzy terms at most 500 bytes (the Levenshtein automaton needs about 70 KB per term byte)",
 		"both sides of every comparison run on the same index; a differing pair is re-run once and discarded as inconclusive if the original does not reproduce itself",
 	}
-	r.MinDistinct = r.Scale(15000, 400000)
+	r.MinDistinct = r.Scale(25000, 500000)
 
 	// probes
 	var probes []*probe
@@ -100,7 +100,7 @@ func run(r *ev.Run) {
 	checkLiterals(r, probes)
 
 	// part 1
-	nJSON := r.Scale(4000, 120000)
+	nJSON := r.Scale(6000, 120000)
 	parallel(nJSON, func(i int) {
 		g := r.Rng(fmt.Sprintf("json-%d", i))
 		x := &gen{g: g, ids: allIDs}
@@ -115,7 +115,7 @@ func run(r *ev.Run) {
 	lap("1 query json")
 
 	// part 2
-	nReq := r.Scale(2000, 60000)
+	nReq := r.Scale(3000, 60000)
 	parallel(nReq, func(i int) {
 		g := r.Rng(fmt.Sprintf("req-%d", i))
 		p := probes[i%len(probes)]
@@ -143,7 +143,7 @@ func run(r *ev.Run) {
 	lap("2 request json")
 
 	// part 4
-	nQS := r.Scale(4000, 120000)
+	nQS := r.Scale(6000, 120000)
 	parallel(nQS, func(i int) {
 		x := &gen{g: r.Rng(fmt.Sprintf("qs4-%d", i)), ids: allIDs}
 		checkQS(r, probes, x.qsCase(), i < 1)
@@ -152,7 +152,7 @@ func run(r *ev.Run) {
 	lap("4 query string meaning")
 
 	// part 3 (last: its journal entries are the ones a process death would need)
-	nSoup := r.Scale(20000, 1200000)
+	nSoup := r.Scale(30000, 1200000)
 	parallel(nSoup, func(i int) {
 		x := &gen{g: r.Rng(fmt.Sprintf("soup-%d", i)), ids: allIDs}
 		s, mode := x.soup()
